@@ -415,6 +415,254 @@ def r7(run):
                reason="http-stream-differs-from-store")
 
 
+
+BUILDER_BODY = "http::response::Builder::body"
+BUILDER_STATUS = "http::response::Builder::status"
+
+
+def responses_in(body):
+    """[(body_call, status)] for every HTTP response finished in `body` (status 200 when none is set)."""
+    out = []
+    for c in body.calls():
+        if c.bb in body.live_blocks() and c.fn.startswith(BUILDER_BODY):
+            status = 200
+            x = strip(c.arg(0))
+            n = 0
+            while x[0] == "call" and n < 12:
+                n += 1
+                if x[1].fn.startswith(BUILDER_STATUS):
+                    k = q.const_int(x[2][1])
+                    status = k if k is not None else -1
+                if not x[2]:
+                    break
+                x = strip(x[2][0])
+            out.append((c, status))
+    return out
+
+
+def api_coroutine(run, name):
+    for b in run.facts.bodies_under(API + name):
+        if b.is_coroutine:
+            run.touch(b)
+            return b
+    return None
+
+
+def r9(run):
+    """Status codes: the error responders carry their code; a failed store operation is never answered with a success status."""
+    for fn, code in (("xs::api::response_400", 400), ("xs::api::response_404", 404), ("xs::api::response_500", 500)):
+        b = C.body_or_fail(run, fn)
+        rs = responses_in(b)
+        run.ob("%s|status" % fn, len(rs) >= 1 and all(st == code for (c, st) in rs), b.sp, "%s answers with status %d (%s)" % (fn.split("::")[-1], code, [st for (c, st) in rs]),
+               reason="wrong-status-code")
+    fo = C.body_or_fail(run, "xs::api::response_frame_or_404")
+    some_e, none_e = [], []
+    for bb, si in fo.switches():
+        if si["kind"] == "variant" and "option::Option" in (si.get("adt") or ""):
+            for (t, lab, m) in si["edges"]:
+                ms = set(m) if isinstance(m, tuple) else {m}
+                (some_e if ms == {"Some"} else none_e if ms == {"None"} else []).append((bb, t, lab))
+    nf = q.live_calls(fo, "xs::api::response_404")
+    ok_rs = responses_in(fo)
+    run.ob("xs::api::response_frame_or_404|absent-is-404", bool(nf) and bool(none_e) and all(q.dominated(fo, c.bb, via_edges=none_e) for c in nf), fo.sp,
+           "an absent frame is answered by response_404, only on the None edge", reason="wrong-status-code")
+    run.ob("xs::api::response_frame_or_404|present-is-200", bool(ok_rs) and all(st == 200 and q.dominated(fo, c.bb, via_edges=some_e) for (c, st) in ok_rs), fo.sp,
+           "a present frame is answered with 200 on the Some edge", reason="wrong-status-code")
+    # handlers that match on a store result themselves
+    n = 0
+    for b in run.facts.all_bodies():
+        if not b.def_.startswith(API + "handle_") or not b.is_coroutine:
+            continue
+        for bb, si in b.switches():
+            cond = strip(si["cond"])
+            if si["kind"] != "variant" or cond[0] != "call" or not cond[1].fn.startswith("xs::store::Store::"):
+                continue
+            errs = [(bb, t, lab) for (t, lab, m) in si["edges"] if (set(m) if isinstance(m, tuple) else {m}) == {"Err"}]
+            oks = [(bb, t, lab) for (t, lab, m) in si["edges"] if (set(m) if isinstance(m, tuple) else {m}) == {"Ok"}]
+            if not errs:
+                continue
+            n += 1
+            run.touch(b)
+            for (c, st) in responses_in(b):
+                if q.dominated(b, c.bb, via_edges=errs):
+                    run.ob("%s|%s|error-status" % (run.facts.enclosing_fn(b), cond[1].fn.split("::")[-1]), st >= 400, c.sp,
+                           "a failed %s is answered with an error status (%d)" % (cond[1].fn.split("::")[-1], st), reason="failure-answered-as-success")
+                elif oks and q.dominated(b, c.bb, via_edges=oks):
+                    run.ob("%s|%s|success-status" % (run.facts.enclosing_fn(b), cond[1].fn.split("::")[-1]), 200 <= st < 300, c.sp,
+                           "a successful %s is answered with a 2xx status (%d)" % (cond[1].fn.split("::")[-1], st), reason="wrong-status-code")
+    run.floor("handlers matching on a store result", n, 1)
+    # GET /cas/<hash>: only a NotFound I/O error is a 404, every other failure a 500
+    hb = handle_body(run)
+    if hb is not None:
+        kinds = []
+        for bb, si in hb.switches():
+            if si["kind"] != "bool":
+                continue
+            cm = q.comparison(si["cond"])
+            if cm and cm[0] in ("eq", "ne") and any(y[0] == "call" and y[1].fn == "std::io::error::Error::kind" for s2 in (cm[1], cm[2]) for y in walk(s2)):
+                is_nf = any("NotFound" in fmt(strip(s2)) for s2 in (cm[1], cm[2]))
+                kinds.append((bb, cm[0], is_nf))
+        run.floor("io::ErrorKind tests in api::handle (CAS lookup)", len(kinds), 1, hb.sp)
+        for (bb, rel, is_nf) in kinds:
+            eq_e = q.edge_triples(hb, bb, lambda m, rel=rel: m is (rel == "eq"))
+            ne_e = q.edge_triples(hb, bb, lambda m, rel=rel: m is (rel != "eq"))
+            r404 = [c for c in q.live_calls(hb, "xs::api::response_404") if q.dominated(hb, c.bb, via_edges=eq_e)]
+            bad404 = [c.sp for c in q.live_calls(hb, "xs::api::response_404") if q.dominated(hb, c.bb, via_edges=ne_e)]
+            run.ob("%s|cas-missing-is-404" % HANDLE, is_nf and bool(r404) and not bad404, hb.blocks[bb]["term"]["sp"],
+                   "a CAS lookup failing with ErrorKind::NotFound (and only that) is answered 404", reason="wrong-status-code")
+
+
+def ndjson_terminated(run, body, label):
+    """Every serde_json::to_vec(frame) rendered as an NDJSON line gets its `\n` before it becomes body bytes."""
+    n = 0
+    for tv in q.live_calls(body, "serde_json::ser::to_vec"):
+        pushes = [c for c in q.live_calls(body, "alloc::vec::Vec::<T, A>::push") if q.const_int(c.arg(1)) == 10 and any(q.same_call(cc, tv) for cc in q.calls_in(c.arg(0)))]
+        users = [c for c in body.calls() if c.bb in body.live_blocks() and (c.fn.endswith("convert::From::from") or c.fn.endswith("::data") or "Bytes" in c.fn)
+                 and any(q.same_call(cc, tv) for a in c.arg_exprs() for cc in q.calls_in(a)) and not c.fn.endswith("::push")]
+        n += 1
+        unterminated = body.reachable_blocks([tv.bb], removed_blocks=[p.bb for p in pushes])
+        run.ob("%s|ndjson-newline" % label, bool(pushes) and not [u for u in users if u.bb in unterminated], tv.sp,
+               "the JSON of a frame is followed by a newline before it is sent (%d push(es), %d consumer(s))" % (len(pushes), len(users)), reason="ndjson-framing")
+    return n
+
+
+def r10(run):
+    """GET /head/<topic>: without `follow` the current head (or 404); with it, the head and then exactly that topic's later frames."""
+    hb = api_coroutine(run, "handle_head_get")
+    if hb is None:
+        run.missing("xs::api::handle_head_get|body", "handle_head_get not found")
+        return
+    from . import C06 as c06
+    sw = [(bb, si) for bb, si in hb.switches() if si["kind"] == "bool" and (q.last_field(si["cond"]) == "follow" or fmt(strip(si["cond"])).endswith("follow"))]
+    run.exact("tests of the follow flag in handle_head_get", len(sw), 1, hb.sp)
+    reads = q.live_calls(hb, C.READ)
+    run.exact("Store::read calls in handle_head_get", len(reads), 1, hb.sp)
+    if not sw or not reads:
+        return
+    bb, si = sw[0]
+    te, fe = q.edge_triples(hb, bb, lambda m: m is True), q.edge_triples(hb, bb, lambda m: m is False)
+    rd = reads[0]
+    one = q.live_calls(hb, "xs::api::response_frame_or_404")
+    run.ob("xs::api::handle_head_get|follow-polarity", q.dominated(hb, rd.bb, via_edges=te) and bool(one) and all(q.dominated(hb, c.bb, via_edges=fe) for c in one), rd.sp,
+           "the subscription is opened only with `follow`; without it the current head (or 404) is the whole answer", reason="head-follow-polarity")
+    heads = q.live_calls(hb, C.HEAD)
+    info = c06.options_info(run, hb, rd.arg(1))
+    if info["kind"] != "builder":
+        run.unrecognised("xs::api::handle_head_get|options", "cannot interpret the ReadOptions of the head subscription", rd.sp)
+    else:
+        st = info["setters"]
+        fv = strip(st["follow"][0]) if "follow" in st and st["follow"][0] is not None else None
+        run.ob("xs::api::handle_head_get|options|follow", fv is not None and fv[0] == "agg" and fv[1].get("variant") in ("On", "WithHeartbeat"), rd.sp,
+               "the head subscription follows (FollowOption::On): %s" % (fmt(fv) if fv is not None else None), reason="head-follow-options")
+        tv = strip(st["tail"][0]) if "tail" in st and st["tail"][0] is not None else None
+        lid = st.get("last_id")
+        from_head = lid is not None and lid[0] is not None and any(q.same_call(cc, h) for h in heads for cc in q.calls_in(lid[0]))
+        run.ob("xs::api::handle_head_get|options|start", tv is not None and tv[0] == "const" and tv[1].get("bool") is True and from_head, rd.sp,
+               "the subscription skips history (tail) and resumes strictly after the head it already answered with (last_id = head.id): tail=%s last_id-from-head=%s" % (
+                   fmt(tv) if tv is not None else None, from_head), reason="head-follow-options")
+    # only frames of that topic are streamed
+    flt = [c for c in hb.calls() if c.bb in hb.live_blocks() and c.fn.endswith("StreamExt::filter")]
+    ok = False
+    for c in flt:
+        clo = strip(c.arg(1))
+        cb = run.facts.body(clo[1].get("def")) if clo[0] == "agg" and clo[1].get("def") else None
+        if cb is None:
+            continue
+        run.touch(cb)
+        rets = cb.return_defs()
+        for (rb2, e, raw) in rets:
+            cm = q.comparison(e)
+            if cm and cm[0] == "eq" and len(rets) == 1:
+                sides = [strip(cm[1]), strip(cm[2])]
+                has_topic = any(q.last_field(x) == "topic" and any(y[0] == "arg" for y in walk(x)) for x in sides)
+                has_cap = any(any(y[0] == "env" for y in walk(x)) and not any(y[0] == "arg" for y in walk(x)) for x in sides)
+                ok = has_topic and has_cap
+    run.ob("xs::api::handle_head_get|topic-filter", len(flt) == 1 and ok, flt[0].sp if flt else hb.sp,
+           "the followed stream is filtered to frames whose topic EQUALS the requested topic", reason="head-follow-other-topics")
+    n = 0
+    for b in run.facts.bodies_under("xs::api::handle_head_get"):
+        n += ndjson_terminated(run, b, "xs::api::handle_head_get")
+    run.floor("NDJSON lines rendered by handle_head_get", n, 2, hb.sp)
+    for b in run.facts.bodies_under("xs::api::handle_stream_cat"):
+        ndjson_terminated(run, b, "xs::api::handle_stream_cat")
+
+
+def r11(run):
+    """match_route: content negotiation and the CAS hash validation have the right polarity; POST /<topic> stores its body."""
+    mr = C.body_or_fail(run, MATCH_ROUTE)
+    ev = [(bi, st) for bi, si2, st in mr.stmt_points() if st["k"] == "assign" and st["rv"].get("agg") == "adt" and st["rv"].get("adt", "").endswith("AcceptType")
+          and bi in mr.live_blocks()]
+    sse_e = []
+    for bb, si in mr.switches():
+        if si["kind"] != "bool":
+            continue
+        cm = q.comparison(si["cond"])
+        if cm and cm[0] in ("eq", "ne") and "text/event-stream" in q.const_strs(si["cond"]):
+            sse_e += q.edge_triples(mr, bb, lambda m, rel=cm[0]: m is (rel == "eq"))
+    for (bi, st) in ev:
+        v = st["rv"].get("variant")
+        if v == "EventStream":
+            run.ob("%s|accept|EventStream" % MATCH_ROUTE, bool(sse_e) and q.dominated(mr, bi, via_edges=sse_e), st["sp"],
+                   "the SSE rendering is chosen only when Accept equals text/event-stream", reason="wrong-rendering")
+        elif v == "Ndjson":
+            run.ob("%s|accept|Ndjson" % MATCH_ROUTE, not (sse_e and q.dominated(mr, bi, via_edges=sse_e)), st["sp"], "NDJSON is the rendering for every other Accept value", reason="wrong-rendering")
+    run.floor("AcceptType construction sites in match_route", len(ev), 2, mr.sp)
+    # CAS hash validation: an Integrity without hashes, or with a digest that is not base64, never becomes Routes::CasGet
+    cas = [(bi, st) for bi, si2, st in mr.stmt_points() if st["k"] == "assign" and st["rv"].get("agg") == "adt" and st["rv"].get("adt") == "xs::api::Routes"
+           and st["rv"].get("variant") == "CasGet" and bi in mr.live_blocks()]
+    run.exact("Routes::CasGet construction sites", len(cas), 1, mr.sp)
+    vb = mr
+    helper_call = None
+    if not any(c.fn.endswith("Engine::decode") for c in mr.calls() if c.bb in mr.live_blocks()):
+        for c in mr.calls():
+            if c.bb in mr.live_blocks() and c.local:
+                hb2 = run.facts.body(c.fn)
+                if hb2 is not None and any(cc.fn.endswith("Engine::decode") for cc in hb2.calls()):
+                    vb, helper_call = hb2, c
+    run.touch(vb)
+    bad = []
+    for bb, si in vb.switches():
+        cond = strip(si["cond"])
+        if si["kind"] == "bool" and cond[0] == "call" and cond[1].fn.endswith("::is_empty") and q.last_field(cond[2][0]) == "hashes":
+            bad += q.edge_triples(vb, bb, lambda m: m is True)
+    decs = [c for c in vb.calls() if c.bb in vb.live_blocks() and c.fn.endswith("Engine::decode")]
+    for c in decs:
+        bad += q.call_result_edges(vb, c, ok=False)
+    run.ob("%s|cas-hash|checks-present" % MATCH_ROUTE, len(bad) >= 2 and bool(decs), vb.sp, "the hash is checked for at least one digest and for base64 digests (%d rejecting edge(s))" % len(bad),
+           reason="invalid-cas-hash-accepted")
+    if helper_call is None:
+        for (bi, st) in cas:
+            reach = mr.reachable_blocks([t for (_, t, _) in bad])
+            run.ob("%s|cas-hash|invalid-not-routed" % MATCH_ROUTE, bi not in reach, st["sp"], "Routes::CasGet is not reachable from a failed hash check", reason="invalid-cas-hash-accepted")
+            good = [e for c in decs for e in q.call_result_edges(vb, c, ok=True)]
+            run.ob("%s|cas-hash|valid-routed" % MATCH_ROUTE, bool(good) and any(bi in mr.reachable_blocks([t]) for (_, t, _) in good), st["sp"],
+                   "a hash that passes the checks becomes Routes::CasGet", reason="valid-cas-hash-rejected")
+    else:
+        reach = vb.reachable_blocks([t for (_, t, _) in bad])
+        vals = [strip(e) for (rb2, e, raw) in vb.return_defs() if rb2 in reach and not q.reaches(vb, 0, rb2, removed_edges=bad)]
+        run.ob("%s|cas-hash|invalid-is-false" % MATCH_ROUTE, all(v[0] == "const" and v[1].get("bool") is False for v in vals), vb.sp, "the validator answers false after a failed check", reason="invalid-cas-hash-accepted")
+        te = []
+        for bb, si in mr.switches():
+            sc = strip(si["cond"])
+            if si["kind"] == "bool" and sc[0] == "call" and q.same_call(sc[1], helper_call):
+                te += q.edge_triples(mr, bb, lambda m: m is True)
+        for (bi, st) in cas:
+            run.ob("%s|cas-hash|invalid-not-routed" % MATCH_ROUTE, bool(te) and q.dominated(mr, bi, via_edges=te), st["sp"], "Routes::CasGet is built only when the validator answered true",
+                   reason="invalid-cas-hash-accepted")
+    # POST /<topic>: the stored frame references the body that was written to CAS
+    from . import frames as F
+    ab = api_coroutine(run, "handle_stream_append")
+    if ab is None:
+        run.missing("xs::api::handle_stream_append|body", "handle_stream_append not found")
+        return
+    aps = F.appends_in(ab)
+    run.exact("Store::append calls in handle_stream_append", len(aps), 1, ab.sp)
+    for a in aps:
+        srcs = F.content_sources(a.setters.get("hash"))
+        run.ob("xs::api::handle_stream_append|frame-carries-body-hash", bool(srcs) and all(c.fn.startswith("cacache::put::") for c in srcs), a.call.sp,
+               "the appended frame's hash is the result of the CAS commit of the request body (%s)" % [c.fn.split("::")[-1] for c in srcs], reason="body-not-referenced")
+
+
 RULES = [
     ("R-C13-1", "every value returned by api::handle comes from a responder or the final error->500 mapping; no `?` in handle", r1),
     ("R-C13-2", "every panic-capable site of the request-decoding layer is infallible serialisation, prefix-guarded, or individually exempted", r2),
@@ -423,5 +671,8 @@ RULES = [
     ("R-C13-5", "append / import are reached only through the Ok edge of the request decoding; nothing after a 400", r5),
     ("R-C13-8", "a request body that fails part-way never leads to a CAS commit, an append or a success result", r8),
     ("R-C13-7", "GET /: both renderings serialise the whole frame; the stream is Store::read(options) unmodified and unfiltered", r7),
+    ("R-C13-9", "status codes: response_400/404/500 carry their code, an absent frame is 404, a failed store operation is never answered 2xx, only NotFound is a CAS 404", r9),
+    ("R-C13-10", "GET /head/<topic>: follow polarity, subscription options (follow, tail, last_id = head.id), topic-equality filter, NDJSON line framing", r10),
+    ("R-C13-11", "match_route / POST: SSE only for Accept: text/event-stream, an invalid CAS hash never becomes Routes::CasGet, the appended frame references the stored body", r11),
     ("R-C13-6", "route specificity: each catch-all arm is dominated by the false edge of every more specific test of its method", r6),
 ]
